@@ -1,0 +1,8 @@
+//go:build verif
+
+package datalog
+
+// VerifLimits exposes a world's fact and iteration limits to the verification harness in /verif.
+func VerifLimits(w *World) (maxFacts, maxIterations int) {
+	return w.runLimits.maxFacts, w.runLimits.maxIterations
+}
